@@ -47,7 +47,7 @@ def run(chk):
     py_dir = pe.get_global("eko.io.paths", "OPERATORSDIR")
     chk.decide(rc["DIR_OPERATORS"].rstrip("/") == py_dir, "operators-directory-agrees", "crates/dekoder/src/eko.rs", f"the reader scans `{rc['DIR_OPERATORS']}`, the "
                f"writer stores operators in `{py_dir}`", where=feko.rel)
-    uses = feko.find(r"Inventory::new\(\s*path\.join\(\s*(\w+)\s*\)")
+    uses = feko.find(r"Inventory::new\(\s*&?\w+\.join\(\s*(\w+)\s*\)")
     chk.decide(len(uses) == 1 and uses[0][0].group(1) == "DIR_OPERATORS", "operators-directory-agrees", "crates/dekoder/src/eko.rs::load_opened",
                "the operator inventory is no longer opened on path.join(DIR_OPERATORS)", where=feko.rel, instance="use")
     finvs = src.func("eko.io.struct.inventories")
@@ -60,7 +60,7 @@ def run(chk):
     got_dir = str(invs["operators"].attrs["path"]) if isinstance(invs, dict) and "operators" in invs else None
     chk.decide(got_dir == f"/ROOT/{py_dir}", "operators-directory-agrees", finvs.qname, f"the `operators` inventory of an EKO rooted at /ROOT works in "
                f"{got_dir}; the reader scans /ROOT/{rc['DIR_OPERATORS'].rstrip('/')}", where=finvs.where, instance="python", how="PE on a model path")
-    unpack = feko.find(r"\.unpack\(\s*&dst\s*\)")
+    unpack = feko.find(r"\.unpack\(\s*&?\w+\s*\)")
     # the writer: EKO.dump evaluated on the model file system - the members of the archive are the files of the working directory,
     # named relative to it (what an unpack into a fresh directory reproduces)
     fs2 = fsmodel.FS()
@@ -143,10 +143,23 @@ def run(chk):
                "crates/dekoder/src/inventory.rs::load", f"the reader asks the npz for {members}; the writer stores {kw} (member -> content; numpy appends "
                f".npy to the names)", where=finv.rel, how="PE of the writer on a model file system")
     # which member goes where
-    pair = finv.find(r'let\s+op\s*=\s*Some\(\s*npz\s*\.by_name\("([^"]+)"\).*?let\s+err\s*=\s*Some\(\s*npz\s*\.by_name\("([^"]+)"\)')
-    chk.decide(len(pair) == 1 and pair[0][0].group(1) == "operator.npy" and pair[0][0].group(2) == "error.npy", "npz-members-agree",
-               "crates/dekoder/src/inventory.rs::load", "`op` / `err` are no longer filled from operator.npy / error.npy respectively", where=finv.rel,
-               instance="assignment")
+    # which member fills which FIELD of the returned Operator (through whatever local variables): `Operator { op, err }` or
+    # `Operator { op: a, err: b }`, with `let a = Some(npz.by_name("..."))`
+    init = finv.find(r'Operator\s*\{([^{}]*)\}')
+    filled = {}
+    for m_, _ in init:
+        for part in m_.group(1).split(","):
+            part = part.strip()
+            if not part or part.startswith(".."):
+                continue
+            field, _, var = part.partition(":")
+            var = (var or field).strip()
+            src_member = finv.find(r'let\s+(?:mut\s+)?' + re.escape(var) + r'\b[^=]*=\s*Some\(\s*npz\s*\.by_name\(\s*"([^"]+)"\s*\)')
+            if src_member:
+                filled[field.strip()] = src_member[0][0].group(1)
+    chk.decide(filled == {"op": "operator.npy", "err": "error.npy"}, "npz-members-agree",
+               "crates/dekoder/src/inventory.rs::load", f"the fields of the returned Operator are filled as {filled}; required op from operator.npy and err "
+               f"from error.npy", where=finv.rel, instance="assignment")
     chk.decide("FrameDecoder::new" in finv.text and "lz4_flex::frame" in finv.text and werr.get("compression") == "lz4" and written.get("without-error", {}).get("compression") == "lz4", "compression-agrees",
                "crates/dekoder/src/inventory.rs::load", "the two sides no longer both use the lz4 frame format", where=finv.rel)
     # ---- (4) python store: name <-> content, no renames -----------------------------------------------------------------------------------
